@@ -188,7 +188,7 @@ CLAIMED = {
         "each allocated batch is saved and freed with the same window on every normal path; list-mode subsets select events by the "
         "residue class of the basic view. For the cached list-mode objective: the per-thread images the call-back accumulates into are all added to the output image after the event loop in "
         "the as-built and the OpenMP configuration (F24, fixed); the additive term cached for an event is taken from the piece whose segment AND TOF bin equal the event's (F25, fixed); a batch that "
-        "continues in the stream without rewinding restores the clock from saved state; the value added to the sinogram is known to be positive at the store (F68, fixed) and every return path of get_bin_from_event has decoded the event into the caller's bin or marked it rejected (F69, fixed); every public setter of something LmToProjData::set_up() derives state from clears the set-up flag and derived flags are assigned on every path of set_up() (F70, fixed); every set-up path of the list-mode objective that decides to cache re-makes the event cache, or keeps it only under flags that every setter of a cache input clears; the quotient the list-mode gradient back-projects is evaluated only where its own singularity test failed (F78, fixed). NOT decided: event->detector decoding per scanner, time-frame arithmetic, frame additivity, "
+        "continues in the stream without rewinding restores the clock from saved state; the value added to the sinogram is known to be positive at the store (F68, fixed) and every return path of get_bin_from_event has decoded the event into the caller's bin or marked it rejected (F69, fixed); every public setter of something LmToProjData::set_up() derives state from clears the set-up flag and derived flags are assigned on every path of set_up() (F70, fixed); every set-up path of the list-mode objective that decides to cache re-makes the event cache, or keeps it only under flags that every setter of a cache input clears; the quotient the list-mode gradient back-projects is evaluated only where its own singularity test failed (F78, fixed); the event cut-off of the list-mode objective counts the events of all batches (F79, fixed). NOT decided: event->detector decoding per scanner, time-frame arithmetic, frame additivity, "
         "list-mode gradient = sinogram gradient (numerical).",
         technique="static analysis: normalised loop descriptors, interval entailment from must-facts with a callee effect summary, "
         "must-pass-through pairing",
